@@ -1,5 +1,6 @@
 """Entry point: python3 -m sa.check <Cxx> --tier quick|thorough [--replay file]"""
 import importlib
+import os
 import sys
 import traceback
 
@@ -51,6 +52,27 @@ def main(argv):
     except Exception as e:
         chk.ob('%s:internal' % pid, 'internal', 'the analysis completed', None,
                'analysis aborted: %r\n%s' % (e, traceback.format_exc()[-2000:]))
+    if tier == 'thorough' and not os.environ.get('VERIF_NO_SELFTEST'):
+        # the checker's own validation: mutants must be reported, behaviour-preserving rewrites must stay silent
+        from . import selftest
+        try:
+            mres = selftest.run_mutants(pid)
+            sres = selftest.run_silence(pid) if pid in selftest.ALL else []
+            chk.selftest = {'mutants': mres, 'silence': sres}
+            for r in mres:
+                if r['status'] == 'MISSED':
+                    chk.ob('%s:selftest:mutant:%s' % (pid, r['mutant']), 'selftest', 'the seeded mutant "%s" is reported by this check' % r.get('description', r['mutant']),
+                           False, 'CHECKER DEFECT: the mutant compiles and changes the behaviour but no obligation failed')
+                elif r['status'] == 'reported':
+                    chk.ob('%s:selftest:mutant:%s' % (pid, r['mutant']), 'selftest', 'the seeded mutant "%s" is reported by this check' % r.get('description', r['mutant']), True, 'reported: %s' % r.get('reported_keys'))
+            for r in sres:
+                if r['status'] == 'ALARM':
+                    chk.ob('%s:selftest:silence:%s' % (pid, r['rewrite']), 'selftest', 'the behaviour-preserving rewrite "%s" raises no alarm' % r.get('description', r['rewrite']),
+                           False, 'CHECKER DEFECT (false alarm): %s' % (r.get('alarm_keys'),))
+                elif r['status'] == 'silent':
+                    chk.ob('%s:selftest:silence:%s' % (pid, r['rewrite']), 'selftest', 'the behaviour-preserving rewrite "%s" raises no alarm' % r.get('description', r['rewrite']), True, '')
+        except Exception as e:
+            chk.notes.append('self-test aborted: %r' % (e,))
     level = getattr(mod, 'LEVEL', 'proof')
     return core.finish(chk, level=level, explanation=getattr(mod, 'EXPLANATION', None),
                        assumptions=getattr(mod, 'ASSUMPTIONS', None))
